@@ -15,6 +15,7 @@ type vCsvChain struct {
 	last    map[string]*TxOutResp // last non-error answer per txid (nil entry: "no such output")
 	lastErr map[string]bool
 	asked   map[string]int
+	vouts   map[string]uint32      // output index of the last gettxout per txid
 	pending map[string]*vCsvAnswer // answer drawn ahead for the next gettxout of that txid
 }
 
@@ -24,7 +25,7 @@ type vCsvAnswer struct {
 }
 
 func newCsvChain() *vCsvChain {
-	return &vCsvChain{last: map[string]*TxOutResp{}, lastErr: map[string]bool{}, asked: map[string]int{}, pending: map[string]*vCsvAnswer{}}
+	return &vCsvChain{last: map[string]*TxOutResp{}, lastErr: map[string]bool{}, asked: map[string]int{}, vouts: map[string]uint32{}, pending: map[string]*vCsvAnswer{}}
 }
 
 func (c *vCsvChain) GetBlockHeight() (uint64, error) {
@@ -59,6 +60,7 @@ func (c *vCsvChain) prepare(txid string) { c.pending[txid] = vDrawCsvAnswer(txid
 
 func (c *vCsvChain) GetTxOut(txid string, vout uint32) (*TxOutResp, error) {
 	c.asked[txid]++
+	c.vouts[txid] = vout
 	a := c.pending[txid]
 	if a == nil {
 		a = vDrawCsvAnswer(txid) // a second query in the same phase: fresh answer
@@ -149,7 +151,8 @@ func vCsvEntry(two bool, blocks int) {
 	l, g := vCsvWatcher()
 	g.csv["swap-a"], g.tx["swap-a"] = zzverif.U32("a.csv"), "tx-a"
 	g.prepare("swap-a")
-	l.AddWaitForCsvTx("swap-a", "tx-a", zzverif.U32("a.vout"), zzverif.U32("a.start"), g.csv["swap-a"], nil)
+	voutA := zzverif.U32("a.vout")
+	l.AddWaitForCsvTx("swap-a", "tx-a", voutA, zzverif.U32("a.start"), g.csv["swap-a"], nil)
 	_, watchedA := l.csvtxWatchList["swap-a"]
 	// an immediately accepted callback must not leave a registration behind
 	zzverif.Assert(watchedA == (g.okCalls["swap-a"] == 0), "C20.rpc_csv_registered_iff_not_yet_accepted")
@@ -176,6 +179,11 @@ func vCsvEntry(two bool, blocks int) {
 	// C07's view: the maker's refund depends on this watch - it stays registered, whatever the chain
 	// answers in between, until the swap service accepted the csv notification
 	zzverif.Assert(wa || g.okCalls["swap-a"] > 0, "C07.csv_watch_kept_until_the_swap_was_told")
+	// the watcher looks at the output the swap registered (the announced script_out), not at another one
+	if g.chain.asked["tx-a"] > 0 {
+		zzverif.Assert(g.chain.vouts["tx-a"] == voutA, "C07.csv_watch_queries_the_registered_output")
+		zzverif.Assert(g.chain.vouts["tx-a"] == voutA, "C20.rpc_csv_queries_the_registered_output")
+	}
 	zzverif.Assert(wb == (two && g.okCalls["swap-b"] == 0), "C20.rpc_csv_removed_exactly_when_accepted_b")
 }
 
